@@ -155,7 +155,10 @@ struct ScStats {
     probes: Counts,
     samples: Vec<Value>,
     first_hashes: BTreeMap<u64, String>,
-    violations: BTreeMap<(String, String), Value>,
+    /// (class, site, bucket): the bucket separates instances that match a known-findings entry (by
+    /// its index, detail glob included) from those that match none, so that a known finding never
+    /// stands in for a different defect that shares its class and site
+    violations: BTreeMap<(String, String, String), Value>,
     cells: BTreeSet<String>,
 }
 
@@ -209,6 +212,7 @@ fn worker(spec: &CheckSpec, args: &[String]) -> ! {
     let mut hashes: Vec<u8> = Vec::new();
     let mut last_flush = Instant::now();
     let mut truncated = false;
+    let known_list = known::load(&format!("{}/known_findings.json", verif_dir()));
     'outer: for (j, sc) in spec.scenarios.iter().enumerate() {
         let name = sc.name();
         if let Some(o) = &only {
@@ -259,7 +263,11 @@ fn worker(spec: &CheckSpec, args: &[String]) -> ! {
                 st.samples.push(json!({"scenario": name, "index": i, "seed": seed, "events": cx.trace.events.iter().take(60).collect::<Vec<_>>(), "n_events": cx.trace.n, "tapes": cx.src.tapes()}));
             }
             if let Some(v) = &cx.violation {
-                let key = (v.class.clone(), v.site.clone());
+                let kb = match known::match_index(&known_list, spec.id, &name, &v.class, &v.site, &v.detail) {
+                    Some(ix) => format!("k{}", ix),
+                    None => "-".to_string(),
+                };
+                let key = (v.class.clone(), v.site.clone(), kb.clone());
                 match st.violations.get_mut(&key) {
                     Some(e) => {
                         let c = e["count"].as_u64().unwrap_or(1) + 1;
@@ -268,7 +276,7 @@ fn worker(spec: &CheckSpec, args: &[String]) -> ! {
                     None => {
                         st.violations.insert(
                             key,
-                            json!({"scenario": name, "scenario_index": j, "index": i, "seed": seed, "class": v.class, "site": v.site, "detail": v.detail, "count": 1,
+                            json!({"scenario": name, "scenario_index": j, "index": i, "seed": seed, "class": v.class, "site": v.site, "detail": v.detail, "count": 1, "kb": kb,
                                    "tapes": cx.src.tapes(), "hash": format!("{:016x}", cx.trace.hash)}),
                         );
                     }
@@ -656,7 +664,7 @@ fn parent(spec: &CheckSpec, args: &[String]) -> ! {
                     }
                     if let Some(a) = s["violations"].as_array() {
                         for x in a {
-                            let key = (x["class"].as_str().unwrap_or("").to_string(), x["site"].as_str().unwrap_or("").to_string());
+                            let key = (x["class"].as_str().unwrap_or("").to_string(), x["site"].as_str().unwrap_or("").to_string(), x["kb"].as_str().unwrap_or("-").to_string());
                             match m.violations.get_mut(&key) {
                                 Some(e) => {
                                     let c = e["count"].as_u64().unwrap_or(0) + x["count"].as_u64().unwrap_or(0);
